@@ -57,22 +57,54 @@ def run(c, chk):
 
     ex = sym.Explorer(c.modules, max_visits=2, mod_sets=c.mod_sets, max_paths=50000)
     dup = c.need('cfg_dupopt_array')
-    cleared, filled = set(), {}
+    # per success path and per copied entry: after the raw copy of the caller's record, the LAST value stored into each
+    # owned member must be NULL or a fresh duplicate of the same member of the source
+    verdict = {}          # member -> set of problems ('' = fine)
+    crossed = {}
+    npaths = 0
     for p in ex.explore(dup):
         if p.end != 'ret' or p.retval in (sym.C0, None):
             continue
-        for e in p.events:
-            if e.kind == 'store' and e.addr[0] == 'fld' and sym.root_of(e.addr)[0] == 'call':
-                nm = member_name(e.addr)
-                if e.val == sym.C0:
-                    cleared.add(nm)
-                elif e.val[0] == 'call' and e.val[1] in ('strdup', 'cfg_dupopt_array'):
-                    ev = next(x for x in p.events if x.kind == 'call' and x.res == e.val)
-                    src = ev.args[0]
-                    srcnm = member_name(src[1]) if src[0] == 'ld' and src[1][0] == 'fld' else None
-                    filled.setdefault(nm, set()).add(srcnm)
-    D = set(n for n in filled if n in cleared and filled[n] == {n})
-    crossed = dict((n, s) for n, s in filled.items() if s != {n})
+        npaths += 1
+        raw = {}              # entry (or whole array object) -> event index of the raw copy
+        last = {}             # (entry, member) -> (index, value)
+        for i, e in enumerate(p.events):
+            if e.kind == 'call' and (e.name or '').startswith('llvm.memcpy') and sym.root_of(e.args[0])[0] == 'call' and sym.root_of(e.args[1])[0] == 'p':
+                raw[e.args[0]] = i
+            elif e.kind == 'store' and e.addr[0] == 'fld' and sym.root_of(e.addr)[0] == 'call':
+                ent = e.addr
+                while ent[0] == 'fld':
+                    ent = ent[1]
+                last[(ent, member_name(e.addr))] = (i, e.val)
+        entries = set(k[0] for k in last) | set(k for k in raw if k[0] == 'idx')
+        for ent in entries:
+            ri = raw.get(ent, raw.get(sym.root_of(ent), raw.get(sym.object_of(ent))))
+            if ri is None:
+                continue          # built from zeroed memory only: nothing of the caller's is in it
+            for m in L:
+                got = last.get((ent, m))
+                if got is None or got[0] < ri:
+                    verdict.setdefault(m, set()).add('is not given a private value after the caller\'s record was copied in')
+                    continue
+                v = got[1]
+                if v == sym.C0:
+                    verdict.setdefault(m, set()).add('')
+                    continue
+                ev = next((x for x in p.events if x.kind == 'call' and x.res == v), None)
+                if ev is None or ev.name not in ('strdup', 'cfg_dupopt_array') and ev.name not in c.fresh_returning:
+                    verdict.setdefault(m, set()).add('ends up as %s, not a fresh duplicate' % sym.render(v))
+                    continue
+                src = ev.args[0]
+                srcnm = member_name(src[1]) if src[0] == 'ld' and src[1][0] == 'fld' else None
+                if srcnm != m:
+                    crossed.setdefault(m, set()).add(srcnm)
+                    verdict.setdefault(m, set()).add('is filled from %s of the source instead of the same member' % srcnm)
+                else:
+                    verdict.setdefault(m, set()).add('')
+    D = set(m for m, v in verdict.items() if v == {''} or v == {'', ''})
+    filled = dict((m, {m}) for m in D)
+    cleared = set(D)
+    problems = dict((m, sorted(x for x in v if x)) for m, v in verdict.items() if any(v - {''}))
     fr = c.need('cfg_free_opt_array')
     F = set()
     for p in ex.explore(fr):
@@ -86,13 +118,9 @@ def run(c, chk):
     for nm in sorted(L | D | F):
         inL, inD, inF = nm in L, nm in D, nm in F
         if inL and inD and inF:
-            chk.ok('R16.1', 'member %s' % nm, 'owned pointer: cleared then deep-copied from the same member; released by cfg_free_opt_array()', sample=True)
+            chk.ok('R16.1', 'member %s' % nm, 'owned pointer: after the raw copy its final value is NULL or a duplicate of the same member (all %d paths); released by cfg_free_opt_array()' % npaths, sample=True)
         elif inL and not inD:
-            why = 'is not deep-copied by cfg_dupopt_array()'
-            if nm in crossed:
-                why = 'is filled from %s of the source instead of the same member' % sorted(crossed[nm])
-            elif nm in filled and nm not in cleared:
-                why = 'is not cleared in the copy before the duplicates are made (a failure would free the caller\'s string)'
+            why = '; '.join(problems.get(nm, [])) or 'is not deep-copied by cfg_dupopt_array()'
             chk.fail('R16.1', 'not-duplicated:%s' % nm, c.where(dup), 'pointer member "%s" of the option record %s: the context keeps pointing into the caller\'s declaration' % (nm, why))
         elif inL and not inF:
             chk.fail('R16.1', 'not-freed:%s' % nm, c.where(fr), 'pointer member "%s" is duplicated for every context but never released by cfg_free_opt_array()' % nm)
@@ -300,7 +328,8 @@ def whole_array_copy_protected(c, chk, rid, L):
             if flds:
                 clearing[h] = (body, flds)
         fallible = [x for x in f.calls() if (x.callee_name() or '') in ('strdup', 'strndup', 'malloc', 'calloc', 'cfg_dupopt_array')
-                    or (x.callee_name() or '') in c.unknown_funcs]
+                    or ((x.callee_name() or '') in c.unknown_funcs and any((y.callee_name() or '') in ('strdup', 'strndup', 'malloc', 'calloc', 'realloc', 'cfg_dupopt_array')
+                                                                      for y in c.deep_calls(c.func(x.callee_name()))))]
         fallible = [x for x in fallible if any(raw_.block.label in dom.get(x.block.label, ()) for raw_ in raw) and x.block is not raw[0].block
                     or (x.block is raw[0].block and x.idx > raw[0].idx)]
         short = set(m.split('.')[-1] for m in L)
